@@ -392,7 +392,13 @@ func (e *vfC01Env) col0Src(r *vfRand) string {
 	if len(cands) == 0 {
 		return ""
 	}
-	return cands[r.Intn(len(cands))]
+	c := cands[r.Intn(len(cands))]
+	if r.Chance(18) { // the literals in the wrong order: the same-line conjunction holds, the regexp does not match (unless W1 occurs again behind W0)
+		if i := strings.Index(c, ".*"); i > 0 {
+			c = c[i+2:] + ".*" + c[:i]
+		}
+	}
+	return c
 }
 
 func (e *vfC01Env) sameLineSrc(r *vfRand) string {
@@ -627,10 +633,10 @@ func (e *vfC01Env) crossLineSrc(r *vfRand) (string, []string) {
 		for k := range idx {
 			if k > 0 {
 				switch x := r.Intn(100); {
-				case x < 50:
+				case x < 58:
 					b.WriteString(r.Pick(vfC01SepsDotAllStar))
 					sepNL = true
-				case x < 74:
+				case x < 78:
 					b.WriteString(r.Pick(vfC01SepsNL))
 					sepNL = true
 				default:
@@ -680,12 +686,22 @@ func (e *vfC01Env) crossLineSrc(r *vfRand) (string, []string) {
 			hit = true
 			out = append(out, "re-cross-hit")
 		}
-		if !hit && try < 9 && r.Chance(55) {
+		if !hit && try < 10 && r.Chance(70) {
 			continue
 		}
 		return src, out
 	}
 	return "", nil
+}
+
+// vfC01Opt: the query parser hands regexps through query.OptimizeRegexp (captures removed, Simplify: counted repetitions expanded);
+// the gRPC path (query.RegexpFromProto) parses only - OpCapture, OpRepeat, OpQuest reach regexpToMatchTreeRecursive as written. 30 % of
+// the generated regexps take the second path.
+func vfC01Opt(r *vfRand, re *syntax.Regexp) *syntax.Regexp {
+	if r.Chance(30) {
+		return re
+	}
+	return query.OptimizeRegexp(re, syntax.ClassNL|syntax.PerlX|syntax.UnicodeGroups)
 }
 
 func (e *vfC01Env) regexSrc(r *vfRand) string {
@@ -717,7 +733,7 @@ func (e *vfC01Env) regexSrc(r *vfRand) string {
 	case 3:
 		return "(" + L() + ")+"
 	case 4:
-		return "(" + L() + "){2,}"
+		return "(" + L() + ")" + r.Pick([]string{"{2,}", "{2,}", "{1,}", "{1,3}", "{2,3}", "{2}", "{0,2}", "{3,}"})
 	case 5, 6, 7:
 		return `\b` + L() + `\b`
 	case 8:
@@ -837,7 +853,7 @@ func (e *vfC01Env) symAtom(r *vfRand) query.Q {
 	if err != nil {
 		return &query.Const{Value: true}
 	}
-	re = query.OptimizeRegexp(re, syntax.ClassNL|syntax.PerlX|syntax.UnicodeGroups)
+	re = vfC01Opt(r, re)
 	if re.Op == syntax.OpEmptyMatch {
 		return &query.Const{Value: true}
 	}
@@ -883,10 +899,56 @@ func (e *vfC01Env) atom(r *vfRand) query.Q {
 	if r.Chance(14) {
 		return e.symAtom(r)
 	}
-	if r.Chance(13) { // content regexps lit SEP lit with newline-capable / same-line separators, literals on the same / adjacent / distant lines
+	if r.Chance(16) { // shards with tombstoned repositories: repository-level filters (mostly at the coincidence "matching incl. tombstoned = alive", see focus)
+		hasDead := false
+		for j := range d.repoMetaData {
+			hasDead = hasDead || d.repoMetaData[j].Tombstone
+		}
+		if hasDead {
+			if r.Chance(50) {
+				set := map[string]bool{}
+				for i, md := range d.repoMetaData {
+					if e.focus(r, i) {
+						set[md.Name] = true
+					}
+				}
+				return &query.RepoSet{Set: set}
+			}
+			var ids []uint32
+			for i, md := range d.repoMetaData {
+				if e.focus(r, i) {
+					ids = append(ids, md.ID)
+				}
+			}
+			return query.NewRepoIDs(ids...)
+		}
+	}
+	if r.Chance(6) { // counted repetitions of a literal as the gRPC path delivers them (parsed, not simplified): OpRepeat with Min 1, 2, 3
+		p := e.pat(r)
+		for k := 0; k < 4 && (len([]rune(p)) < 3 || strings.Contains(p, "\n")); k++ {
+			p = e.pat(r)
+		}
+		src := "(" + stdregexp.QuoteMeta(p) + ")" + r.Pick([]string{"{2,}", "{2,}", "{2}", "{2,3}", "{1,2}", "{1,}", "{3,}"})
+		if r.Chance(25) {
+			src = stdregexp.QuoteMeta(e.pat(r)) + ".*" + src
+		}
+		if re, err := syntax.Parse(src, syntax.ClassNL|syntax.PerlX|syntax.UnicodeGroups); err == nil {
+			q := &query.Regexp{Regexp: re, CaseSensitive: r.Chance(60)}
+			switch r.Intn(3) {
+			case 0:
+				q.FileName = true
+			case 1:
+				q.Content = true
+			}
+			e.rsrc[q] = src
+			e.xcls = append(e.xcls, "re-repeat-raw")
+			return q
+		}
+	}
+	if r.Chance(18) { // content regexps lit SEP lit with newline-capable / same-line separators, literals on the same / adjacent / distant lines
 		if src, cls := e.crossLineSrc(r); src != "" {
 			if re, err := syntax.Parse(src, syntax.ClassNL|syntax.PerlX|syntax.UnicodeGroups); err == nil {
-				re = query.OptimizeRegexp(re, syntax.ClassNL|syntax.PerlX|syntax.UnicodeGroups)
+				re = vfC01Opt(r, re)
 				if re.Op != syntax.OpEmptyMatch {
 					q := &query.Regexp{Regexp: re, CaseSensitive: r.Chance(60), Content: true}
 					if r.Chance(12) {
@@ -902,7 +964,7 @@ func (e *vfC01Env) atom(r *vfRand) query.Q {
 	if r.Chance(12) { // content regexps of the same-line shape lit.*lit(.*lit): andLineMatchTree
 		if src := e.sameLineSrc(r); src != "" {
 			if re, err := syntax.Parse(src, syntax.ClassNL|syntax.PerlX|syntax.UnicodeGroups); err == nil {
-				re = query.OptimizeRegexp(re, syntax.ClassNL|syntax.PerlX|syntax.UnicodeGroups)
+				re = vfC01Opt(r, re)
 				q := &query.Regexp{Regexp: re, CaseSensitive: r.Chance(60), Content: true}
 				e.rsrc[q] = src
 				return q
@@ -925,7 +987,7 @@ func (e *vfC01Env) atom(r *vfRand) query.Q {
 		if err != nil {
 			return &query.Const{Value: true}
 		}
-		re = query.OptimizeRegexp(re, syntax.ClassNL|syntax.PerlX|syntax.UnicodeGroups)
+		re = vfC01Opt(r, re)
 		if re.Op == syntax.OpEmptyMatch {
 			return &query.Const{Value: true}
 		}
